@@ -466,7 +466,7 @@ int64_t cmi_pool_acquire_inner(struct cmb_resourcepool *rpp,
                 cmi_process_cancel_awaiteds(victim);
 
                 /* Schedule a wakeup for it, but do not switch context yet */
-                cmb_process_interrupt(victim, CMB_PROCESS_PREEMPTED, victim->priority);
+                cmi_process_preempt_notice(victim);
 
                  /* Split the loot */
                 if (loot < rem_claim) {
